@@ -51,7 +51,7 @@ def make_plan(seed: int, tier: str, opts: dict) -> dict:
     eps = [driver.gen_episode(r, j, open_loop=spec["open_loop"], nsteps=r.randint(4, opts.get("max_steps", 10)), endings=("stop",), override_p=0.0, faults=False) for j in range(n_eps)]
     variants = []
     for _ in range(opts.get("variants", 2)):
-        variants.append(dict(mode=r.choice(compiled.MODES), prune=r.random() < 0.5, sizes=r.choice(["auto", "auto", "min", "min", "min+1", "large"]), extra_padding=r.choice([0, 0, 0, 1, 3]),
+        variants.append(dict(mode=r.choice(compiled.MODES), prune=r.random() < 0.5, sizes=r.choice(["auto", "auto", "min", "min", "min+1", "large", "below"]), extra_padding=r.choice([0, 0, 0, 1, 3]),
                              starting_step=r.choice([0, 0, "mid"]), api=r.choice(["rollout_carry", "run_jit", "gym_jit", "gym_override_stale"]), episode=r.randrange(n_eps)))
     for ep in eps:
         ep["until_active"] = True
@@ -91,14 +91,36 @@ def run_plan(plan: dict, replay=None) -> dict:
         G0 = cache[key]
         auto = {n: (max(v) if len(v) else 1) for n, v in G0._buffer_sizes.items()}
         kw = {}
-        if var["sizes"] != "auto":
+        if var["sizes"] == "below":
+            # an inadmissible user size (one producer, below what its most demanding consumer needs; where consumers differ, at least what
+            # the least demanding one needs): Graph() has to refuse it - if it is accepted, the windows must still be right (oracles below)
+            needs = {n: v for n, v in G0._buffer_sizes.items() if len(v) and max(v) >= 2}
+            var = dict(var, extra_padding=0)
+            if needs:
+                rr = random.Random(plan["seed"] ^ 0xB3107)
+                n_ = rr.choice(sorted(needs))
+                lo = min(needs[n_]) if min(needs[n_]) < max(needs[n_]) else 1
+                kw["buffer_sizes"] = {n_: rr.randint(lo, max(needs[n_]) - 1)}
+                tot["inadmissible_sizes_tried"] = tot.get("inadmissible_sizes_tried", 0) + 1
+                try:
+                    G = compiled.build_graph(nodes, sup, raw, mode=var["mode"], prune=var["prune"], **kw)
+                except compiled.CompileRaised as e:
+                    if isinstance(e.__cause__, AssertionError) and "too small" in str(e.__cause__):
+                        tot["inadmissible_sizes_rejected"] = tot.get("inadmissible_sizes_rejected", 0) + 1
+                        continue
+                    raise
+                cache[("below",) + key] = G
+        elif var["sizes"] != "auto":
             add = {"min": 0, "min+1": 1, "large": 7}[var["sizes"]]
             kw["buffer_sizes"] = {n: int(s) + add for n, s in auto.items()}
             tot["user_buffer_sizes"] += 1
         if var["extra_padding"]:
             kw["extra_padding"] = var["extra_padding"]
             tot["extra_padding_runs"] += 1
-        G = compiled.build_graph(nodes, sup, raw, mode=var["mode"], prune=var["prune"], **kw) if kw else G0
+        if ("below",) + key in cache:
+            G = cache.pop(("below",) + key)
+        else:
+            G = compiled.build_graph(nodes, sup, raw, mode=var["mode"], prune=var["prune"], **kw) if kw else G0
         tot["instances"] += 1
         problems, stats, positions = compiled.validate_schedule(G, raw_np, nodes, sup_name, var["prune"])
         problems = [p for p in problems if p[0] != "required-vertex-only-scheduled-beyond-horizon"]  # C07's known finding D12: nothing wrong with what *is* scheduled
